@@ -16,6 +16,7 @@ from harness.common import exc_name
 PROPERTY = 'C10'
 LEAN_TARGETS = ['PxProofs.C10']
 THEOREMS = [
+    'Px.Exec.C10_remote_release', 'Px.Exec.C10_remote_init_failure', 'Px.Exec.C10_remote_no_leak',
     'Px.Exec.C10_release', 'Px.Exec.C10_no_residue', 'Px.Exec.C10_release_round', 'Px.Exec.C10_reap',
     'Px.Exec.C10_return_to_start', 'Px.Exec.C10_footprint_before_after', 'Px.Exec.C10_alloc_lowest_free',
     'Px.Exec.C05_reach_inv',
@@ -46,7 +47,9 @@ def impl(case):
     if k == 'real':
         # refinement: the real handlers, recorded as abstract works, fed to the model (returns 'ok')
         return [S.refine_real(case)]
-    if k in ('repeat', 'remote'):
+    if k == 'remote':
+        return [_remote_run(case)['obs']]
+    if k == 'repeat':
         return ['']
     raise ValueError(k)
 
@@ -59,6 +62,21 @@ def model_lines(case):
         return S.sel_model_lines(case)
     if k == 'real':
         return ['exec 0 nop']
+    if k == 'remote':
+        # arrival (a = initialises, f = initialize() raises); a work whose client closed / sent something that
+        # ends the connection is cleaned up within the rounds that follow; idle ones when their peers close at the end
+        toks, idle = [], []
+        for i, (init, end) in enumerate(case['conns']):
+            fd = 500 + 10 * i
+            toks.append(('f' if init == 'raise' else 'a') + str(fd))
+            if init != 'raise':
+                if end == 'idle':
+                    idle.append(fd)
+                else:
+                    toks.append('c%d' % fd)
+            toks.append('p')
+        toks += ['c%d' % fd for fd in idle] + ['p']
+        return ['exec remote ' + ' '.join(toks)]
     return ['exec %d' % S.BASE]
 
 
@@ -72,6 +90,7 @@ def _remote_run(case):
     counted with the cycle collector off."""
     import os
     import gc
+    import fcntl
     import socket
     import asyncio
     import selectors
@@ -109,9 +128,24 @@ def _remote_run(case):
     try:
         base = len(os.listdir('/proc/self/fd'))
         peers = []
+        handed = []
+        obs = []
+
+        def snap():
+            still = []
+            for f in handed:
+                try:
+                    os.fstat(f)
+                    still.append(f)
+                except OSError:
+                    pass
+            obs.append('raw=%s works=%s' % (','.join(map(str, sorted(still))) or '-',
+                                            ','.join(map(str, sorted(ex.works))) or '-'))
         for i, (init, end) in enumerate(case['conns']):
             a, b = socket.socketpair()
-            fileno = os.dup(a.fileno())
+            # a number nothing else will ever get (lowest-free allocation stays far below): no reuse confusion
+            fileno = fcntl.fcntl(a.fileno(), fcntl.F_DUPFD, 500 + 10 * i)
+            handed.append(fileno)
             a.close()
             b.setblocking(False)
             W.boom = init == 'raise'
@@ -134,11 +168,12 @@ def _remote_run(case):
             if end != 'close':
                 peers.append(b)
             try:
-                for _ in range(case.get('iters', 4)):
+                for _ in range(case.get('iters', 6)):
                     ex.loop.run_until_complete(ex._run_once())
             except Exception as e:      # noqa: BLE001
                 dead = e
                 break
+            snap()
         for b in peers:
             b.close()
         if dead is None:
@@ -147,6 +182,7 @@ def _remote_run(case):
                     ex.loop.run_until_complete(ex._run_once())
             except Exception as e:      # noqa: BLE001
                 dead = e
+        snap()
         works = len(ex.works)
         for wk in list(ex.works):       # leave nothing behind for the next case
             try:
@@ -163,7 +199,7 @@ def _remote_run(case):
             q2.close()
         except Exception:               # noqa: BLE001
             pass
-    return {'dead': dead, 'works': works, 'growth': after - base}
+    return {'dead': dead, 'works': works, 'growth': after - base, 'obs': 'dead' if dead is not None else '|'.join(obs)}
 
 
 def _hist_oracle(case):
@@ -294,7 +330,7 @@ def _remote_cases(rng, n):
     ends = ['close', 'garbage', 'get', 'idle']
     out = [{'kind': 'remote', 'conns': [[i, e]] * k} for i in ('ok', 'raise') for e in ends for k in (1, 3)]
     for _ in range(n):
-        out.append({'kind': 'remote', 'iters': rng.choice([1, 2, 4]),
+        out.append({'kind': 'remote',
                     'conns': [[rng.choice(inits), rng.choice(ends)] for _k in range(rng.choice([2, 3, 5, 8]))]})
     return out
 
